@@ -17,3 +17,145 @@ def contracts():
 
 
 ASSUMPTIONS = _c02.ASSUMPTIONS + ["A-SORTED: sorted(xs, key) is a stable sort by key (uninterpreted sorted_by_precedence)"]
+
+
+# ======================================================================================
+# Parameters._call_watcher — filtering, typing, batching branch, per-watcher batching scope
+# ======================================================================================
+import z3
+
+from contracts import dispatch_model as dm
+from pyvc import spec as S
+from pyvc import values as vm
+from pyvc.engine import OutOfReach, Raise
+from pyvc.values import BoolV, ClsV, Conc, FuncV, Ref, Sym, TupV
+from pyvc.verify import FunctionContract
+
+changed = z3.Function("changed", vm.V, z3.BoolSort())      # ¬Comparator.is_equal(event.old, event.new)
+
+
+def call_watcher_contract():
+    def configure(I):
+        def new_event(I, st, fv, args, kwargs, ctx):
+            r = I.alloc_obj(st, "Event", lazy=False, label="typed_event")
+            st.heap[r.oid].fields.update(kwargs)
+            return [(st, r)]
+        I.lib["new:Event"] = new_event
+
+    def setup(I, st):
+        U = I.U
+        W = dm.World(I, st)
+        oc_, qd = Sym(U.fresh("onlychanged")), Sym(U.fresh("queued"))
+        st.pc += [S.is_bool(I, oc_.t), S.is_bool(I, qd.t)]
+        watcher = I.alloc_obj(st, "Watcher", lazy=True, label="watcher")
+        wh = st.heap[watcher.oid]
+        wh.fields.update({"onlychanged": oc_, "queued": qd})
+        wh.init.update({"onlychanged": oc_, "queued": qd})
+        event = I.alloc_obj(st, "Event", lazy=False, label="event")
+        flds = {k: Sym(U.fresh("event." + k)) for k in ("what", "name", "obj", "cls", "old", "new")}
+        flds["type"] = Conc(None)
+        st.heap[event.oid].fields.update(flds)
+        info = {"W": W, "watcher": watcher, "event": event, "oc": oc_.t, "qd": qd.t, "flds": flds,
+                "symbols": {"BATCH_WATCH0": W.bw0.t, "TRIGGER0": W.tr0.t, "onlychanged": oc_.t, "queued": qd.t}}
+
+        def changed_c(I, st2, fv, args, kwargs, ctx):
+            return [(st2, BoolV(changed(I.term(args[0]))))]
+        I.contracts["Parameters._changed"] = changed_c
+
+        def execute(I, st2, fv, args, kwargs, ctx):
+            st2.ghost["exec"] = st2.ghost.get("exec", []) + [(args[0], args[1], W.bw(st2), W.tr(st2))]
+            q = st2.fork()
+            return [(st2, Conc(None)), (q, Raise("$User", origin="watcher"))]
+        I.contracts["Parameters._execute_watcher"] = execute
+        dm.install_flush_contract(I, W)
+        fv = I.bound_method(W.param, I.src.find_method("Parameters", "_call_watcher"))
+        return fv, [watcher, event], {}, info
+
+    def post(I, info, st, oc):
+        U = I.U
+        W = info["W"]
+        w = I.term(info["watcher"])
+        e = I.term(info["event"])
+        TR, BW = W.tr0.t == U.TRUE, W.bw0.t == U.TRUE
+        qualifies = z3.Or(TR, info["oc"] == U.FALSE, changed(e))
+        ev, ws = W.ev_seq(st), W.ws_seq(st)
+        ex = st.ghost.get("exec", [])
+        how = "raise" if isinstance(oc, Raise) else "return"
+        out = [("exit/BATCH_WATCH-restored[%s]" % how, W.bw(st) == W.bw0.t),
+               ("exit/TRIGGER-untouched[%s]" % how, W.tr(st) == W.tr0.t),
+               ("no-flush-here", z3.BoolVal(not st.ghost.get("flushes")))]
+        # not qualifying: no effect at all
+        out.append(("filtered (changes-only, equal, no trigger) => no call and queues unchanged",
+                    z3.Implies(z3.Not(qualifies), z3.And(z3.BoolVal(len(ex) == 0), ev == W.ev_seq0, ws == W.ws_seq0))))
+        # batching branch: deferred, coalescable, watcher queued once
+        out.append(("batch open => no watcher runs", z3.Implies(BW, z3.BoolVal(len(ex) == 0))))
+        out.append(("batch open and qualifying => event appended",
+                    z3.Implies(z3.And(BW, qualifies), ev == z3.Concat(W.ev_seq0, z3.Unit(e)))))
+        out.append(("batch open and qualifying => watcher queued exactly once (identity)",
+                    z3.Implies(z3.And(BW, qualifies),
+                               ws == z3.If(z3.Contains(W.ws_seq0, z3.Unit(w)), W.ws_seq0, z3.Concat(W.ws_seq0, z3.Unit(w))))))
+        # immediate branch
+        out.append(("no batch and qualifying => watcher executed exactly once",
+                    z3.Implies(z3.And(z3.Not(BW), qualifies), z3.BoolVal(len(ex) == 1))))
+        out.append(("no batch => queues untouched by the dispatch itself",
+                    z3.Implies(z3.Not(BW), z3.And(ev == W.ev_seq0, ws == W.ws_seq0))))
+        if len(ex) == 1:
+            (xw, xevs, xbw, xtr) = ex[0]
+            out.append(("executes the given watcher", I.term(xw) == w))
+            items = xevs.items if isinstance(xevs, TupV) else None
+            ok = items is not None and len(items) == 1 and isinstance(items[0], Ref)
+            out.append(("handed exactly one event", z3.BoolVal(bool(ok))))
+            if ok:
+                f = st.heap[items[0].oid].fields
+                want = z3.If(TR, U.lit("triggered"), z3.If(info["oc"] == U.TRUE, U.lit("changed"), U.lit("set")))
+                out.append(("event type is triggered / changed / set", I.term(f["type"]) == want))
+                same = z3.And([I.term(f[k]) == I.term(info["flds"][k]) for k in ("what", "name", "obj", "cls", "old", "new")])
+                out.append(("event carries the same what/name/obj/cls/old/new", same))
+            out.append(("callback runs inside a batching scope iff the watcher is queued",
+                        xbw == z3.If(z3.Or(info["qd"] == U.TRUE, W.bw0.t == U.TRUE), U.TRUE, U.FALSE)))
+        if isinstance(oc, Raise):
+            out.append(("only a watcher's exception escapes", z3.BoolVal(oc.cls == "$User")))
+        return out
+    return FunctionContract("param.parameterized:Parameters._call_watcher", "C03", setup, post, configure=configure,
+                            name="Parameters._call_watcher")
+
+
+def update_event_type_contract():
+    def configure(I):
+        def new_event(I, st, fv, args, kwargs, ctx):
+            r = I.alloc_obj(st, "Event", lazy=False, label="typed_event")
+            st.heap[r.oid].fields.update(kwargs)
+            return [(st, r)]
+        I.lib["new:Event"] = new_event
+
+    def setup(I, st):
+        U = I.U
+        self = I.alloc_obj(st, "Parameters", lazy=True, label="self_")
+        oc_ = Sym(U.fresh("onlychanged"))
+        trig = Sym(U.fresh("triggered"))
+        st.pc += [S.is_bool(I, oc_.t), S.is_bool(I, trig.t)]
+        watcher = I.alloc_obj(st, "Watcher", lazy=True, label="watcher")
+        st.heap[watcher.oid].fields["onlychanged"] = oc_
+        event = I.alloc_obj(st, "Event", lazy=False, label="event")
+        flds = {k: Sym(U.fresh("event." + k)) for k in ("what", "name", "obj", "cls", "old", "new", "type")}
+        st.heap[event.oid].fields.update(flds)
+        fv = I.bound_method(self, I.src.find_method("Parameters", "_update_event_type"))
+        return fv, [watcher, event, trig], {}, {"oc": oc_.t, "trig": trig.t, "flds": flds, "symbols": {}}
+
+    def post(I, info, st, oc):
+        U = I.U
+        if isinstance(oc, Raise) or not isinstance(oc, Ref):
+            return [("returns an event", z3.BoolVal(False))]
+        f = st.heap[oc.oid].fields
+        want = z3.If(info["trig"] == U.TRUE, U.lit("triggered"), z3.If(info["oc"] == U.TRUE, U.lit("changed"), U.lit("set")))
+        return [("type is triggered / changed / set", I.term(f["type"]) == want),
+                ("other fields copied", z3.And([I.term(f[k]) == info["flds"][k].t for k in ("what", "name", "obj", "cls", "old", "new")]))]
+    return FunctionContract("param.parameterized:Parameters._update_event_type", "C03", setup, post, configure=configure,
+                            name="Parameters._update_event_type")
+
+
+_set_contracts = contracts
+
+
+def contracts():
+    return _set_contracts() + [call_watcher_contract(), update_event_type_contract()]
